@@ -163,7 +163,7 @@ func (p *parser) parseBinaryExpr(left Node) Node {
 	if binaryExp.Right == nil {
 		return nil // previous error
 	}
-	if expType == EMPTY_ARRAY {
+	if expType == EMPTY_ARRAY && binaryExp.Op == OP_PLUS {
 		binaryExp.T = binaryExp.Right.Type() // array concatenation e.g. [] + [1 2]
 	}
 	if left.Type().Fixed || binaryExp.Right.Type().Fixed {
